@@ -484,11 +484,26 @@ func (s *scope) resolve(key instanceKey, descriptor *Descriptor) (any, error) {
 			return nil, err
 		}
 
+		// The scope was closed while the instance was being built: the instance has been disposed with it
+		if atomic.LoadInt32(&s.disposed) != 0 {
+			return nil, ErrScopeDisposed
+		}
+
 		return instance, nil
 
 	case Transient:
 		// Always create new instance
-		return s.createInstance(descriptor)
+		instance, err := s.createInstance(descriptor)
+		if err != nil {
+			return nil, err
+		}
+
+		// The scope was closed while the instance was being built: the instance has been disposed with it
+		if atomic.LoadInt32(&s.disposed) != 0 {
+			return nil, ErrScopeDisposed
+		}
+
+		return instance, nil
 
 	default:
 		return nil, &LifetimeError{
